@@ -269,9 +269,10 @@ theorem C18_classified_loops_order_independent : ∀ e ∈ siteExpectations, cla
 
 /-! ## Part 3: obligations over the regenerated facts -/
 
-/-- Every `for … range <map>` of the pipeline at the CURRENT tree (file, function, loop hash) is classified. -/
+/-- Every `for … range <map>` of the pipeline at the CURRENT tree (file, function, loop hash, and for the
+shapes that depend on code after the loop the hash of the whole function) is classified. -/
 theorem C18_all_sites_covered :
-    ∀ s ∈ mapRangeSites, (lookupSite s.file s.func s.hash).isSome = true := by decide
+    ∀ s ∈ mapRangeSites, (lookupSite s.file s.func s.hash s.ctx).isSome = true := by decide
 
 /-- … and the table contains nothing else (no stale entries). -/
 theorem C18_expectations_current :
